@@ -56,12 +56,20 @@ def r1(ctx):
     calls = [c for c in walk_no_nested(init) if isinstance(c, ast.Call) and src(c.func) == 'self.fetchChromosome']
     ok = False
     if len(calls) == 1:
-        top = [s_ for s_ in init.body if any(x is calls[0] for x in ast.walk(s_))]
-        ok = bool(top)
-        for lazy in (True, False):
-            rs = explore(top, mk_atoms({'uglyMode': False, 'lazyLoad': lazy}))
-            got = {any(c.startswith('self.fetchChromosome(') for c in r['calls']) for r in rs}
-            ok = ok and got == {not lazy}
+        # every path through the constructor (plain, non-"ugly" mode): the contig is fetched iff the local that is stored as self.lazyLoad is
+        # False at the end of the path - wherever the test sits (wrapping if, guard clause with an early return)
+        ok = True
+        try:
+            for lazy in (True, False):
+                rs = [r for r in explore(init.body, mk_atoms({'uglyMode': False, 'vcffile is None': False}), env0={'lazyLoad': lazy}, max_paths=20000) if r['kind'] in ('fall', 'return')]
+                ok = ok and bool(rs)
+                for r in rs:
+                    final = r['consts'].get('lazyLoad', UNK)
+                    called = any(c.startswith('self.fetchChromosome(') for c in r['calls'])
+                    if final is UNK or called != (not final):
+                        ok = False
+        except AnalysisError:
+            ok = False
         # the local tested is the final value stored in self.lazyLoad (C18-R2 checks the attribute)
     ctx.emit('C18-R1', ok, ALLELES, calls[0] if calls else init, 'constructor fetches eagerly iff lazy loading is off (final value of the local)', key='eager-fetch')
     # lookups read the same structure the fetch fills: decision table over (contig loaded, position known, base known)
@@ -394,7 +402,14 @@ def r4(ctx):
             ints = bool(defs) and all(isinstance(a_.value, ast.Call) and src(a_.value.func) == 'int' and len(a_.value.args) == 1 and src(a_.value.args[0]) == first_field for a_ in defs)
         elif key_pos is not None:
             ints = src(key_pos) == f'int({first_field})'
-    ok = ints and len(st) == 1 and 'set(' in src(st[0].value)
+    stored = st[0].value if len(st) == 1 else None
+    if isinstance(stored, ast.Name):
+        # the stored value is a local: its definitions (other than the record unpack) all have to build the set
+        vdefs = [a_ for a_ in walk_no_nested(r) if isinstance(a_, ast.Assign) and len(a_.targets) == 1 and src(a_.targets[0]) == stored.id]
+        sets = bool(vdefs) and all(isinstance(a_.value, ast.Call) and src(a_.value.func) == 'set' for a_ in vdefs)
+    else:
+        sets = stored is not None and 'set(' in src(stored)
+    ok = ints and len(st) == 1 and sets
     ctx.emit('C18-R4', ok, ALLELES, r, 'reader restores integer positions and sample sets', key='cache-types')
     # atomic write
     path = w.args.args[1].arg
